@@ -288,10 +288,14 @@ def run_item(item):
         ex = False
         if exempt['tabs'] is not None and '\t' in iv:
             ex = True
+        weak = None
         if exempt['gutter'] or exempt['markers_removed']:
             # hunk lines get a gutter / lose the marker: only in hunks; headers must still be intact
             if role in ('hunk', 'note') or (role is None and iv[:1] in ('+', '-', ' ', '\\') and not iv.startswith(('+++ ', '--- '))):
                 ex = True
+                if role == 'hunk' and exempt['tabs'] is None or '\t' not in iv:
+                    # the specified relation instead of none: the text (without its marker when markers are removed) closes the row
+                    weak = iv[1:] if exempt['markers_removed'] else iv
         if exempt['omit']:
             if '--commit-style' in ['--' + o for o in exempt['omit']] and iv.startswith('commit '):
                 ex = True
@@ -310,6 +314,12 @@ def run_item(item):
                 ex = True
         if ex:
             counters['exempt_lines'] += 1
+            if weak is not None and role == 'hunk' and not (ov.rstrip(' ').endswith(weak.rstrip(' '))):
+                return violated('c02:text:hunk-with-gutter', 'output line %d does not end with the text of input line %d (a gutter may precede it%s)'
+                                % (i + 1, i + 1, ', the marker is removed' if exempt['markers_removed'] else ''), weak[:200], ov[:200],
+                                run=res, counters=counters, sets=sets)
+            if weak is not None and role == 'hunk':
+                counters['gutter_lines_compared'] = counters.get('gutter_lines_compared', 0) + 1
             continue
         if ov.rstrip(' ') != iv.rstrip(' ') and ov != iv:
             return violated('c02:text:%s' % (role or 'line'),
